@@ -367,10 +367,18 @@ class Exporter:
             if self.returns_receiver(x[2].path):
                 return self.vec_local_of(x[3][0], depth + 1)
             return None
+        if x[0] == "tfield" and getattr(self, "bufcaps", None) and x[2] in self.bufcaps:
+            base = x[1]
+            while base[0] in ("ref", "deref"):
+                base = base[1]
+            if base == ("arg", 1):
+                return ("cap", x[2])        # the buffer captured by this closure (`iter.for_each(|x| x.write(out))`)
         if x[0] == "mutlocal":
             inner = x[2]
             while inner[0] in ("ref", "deref"):
                 inner = inner[1]
+            if inner[0] == "tfield" and getattr(self, "bufcaps", None) and inner[2] in self.bufcaps:
+                return ("cap", inner[2])
             if inner[0] == "arg" and self._is_buf_ty(self.b.local_ty(inner[1])):
                 return ("arg", inner[1])
             if inner[0] == "call" and inner[2] is not None and inner[2].local:
@@ -424,7 +432,7 @@ class Exporter:
             # by-value arguments: what the caller hands over (`w.put(x.to_be_bytes())`, `w.u16(self.count)`)
             if self.vec_local_of(a) is None:
                 cont = self.content(a)
-                if cont[0] in ("atom", "seq", "bytes", "constbyte"):
+                if cont[0] in ("atom", "seq", "bytes", "constbyte", "enc", "inline"):
                     sub.argcontent[i + 1] = cont
                 fo = self.owner_of(a)
                 if fo[0]:
@@ -571,6 +579,26 @@ class Exporter:
                     else:
                         evs.append({"pos": self.order.get(blk, 0), "block": blk, "loop": self.loopctx(blk), "cond": self.condctx(blk), "content": ("unknown", "buffer handed to %s" % c.path)})
                     continue
+            # `iter.for_each(|x| ..out..)`: a closure that captured the buffer runs once per element, in order
+            if c.nsyn == "std::iter::Iterator::for_each" and len(t["args"]) == 2:
+                clo = peel(self.an.op(b, t["args"][1]), identity=(), casts=False)
+                if clo[0] == "closure":
+                    ks = [k for k, u in enumerate(clo[2]) if self.vec_local_of(u) == vlocal]
+                    if ks:
+                        srcpath = self.path_of(self.an.op(b, t["args"][0]), iterating=True)
+                        env = [self.path_of(u) for u in clo[2]]
+                        sub = self._sub_exporter(clo[1], [env, None])
+                        if sub is not None:
+                            sub.argpaths[2] = srcpath
+                            sub.bufcaps = set(ks)
+                            items = self._inline_items(sub, ("cap", ks[0]))
+                            self._loop_owner = getattr(self, "_loop_owner", {})
+                            self._loop_owner[srcpath] = self.loop_source_owner(self.an.op(b, t["args"][0]))
+                            items = [((srcpath,) + tuple(lp), cd, cc) for (lp, cd, cc) in items]
+                            evs.append({"pos": self.order.get(blk, 0), "block": blk, "loop": self.loopctx(blk), "cond": self.condctx(blk), "content": ("inline", items)})
+                        else:
+                            evs.append({"pos": self.order.get(blk, 0), "block": blk, "loop": self.loopctx(blk), "cond": self.condctx(blk), "content": ("unknown", "buffer captured by an unanalysable for_each closure")})
+                        continue
             recv = self.an.op(b, t["args"][0])
             if self.vec_local_of(recv) != vlocal:
                 continue
@@ -625,17 +653,19 @@ class Exporter:
         return x
 
     def result_local(self):
-        """The Vec local that is returned (possibly wrapped in Ok)."""
-        ret = self.sl.local(0)
-        x = peel(ret, mutlocal=False)
-        if x[0] == "agg" and x[2] == "Ok":
-            x = peel(x[3][0], mutlocal=False)
-        x = self._unwrap_finish(x)
+        """The Vec local that is returned (possibly wrapped in Ok, handed out by a wrapper's `finish()` / `.0`)."""
+        def norm(x):
+            x = peel(x, mutlocal=False)
+            if x[0] == "agg" and x[2] == "Ok" and x[3]:
+                x = peel(x[3][0], mutlocal=False)
+            x = self._unwrap_finish(x)
+            if x[0] == "field" and len(x) > 3 and self.wrapper_field(x[3] or "") == x[2]:
+                x = peel(x[1], mutlocal=False)          # `Ok(out.0)` / `out.buf`: the wrapper's own Vec<u8>
+            return x
+        x = norm(self.sl.local(0))
         if x[0] == "phi":
             for m in x[1]:
-                mm = peel(m, mutlocal=False)
-                if mm[0] == "agg" and mm[2] == "Ok":
-                    mm = peel(mm[3][0], mutlocal=False)
+                mm = norm(m)
                 if mm[0] == "mutlocal":
                     return mm[1]
         if x[0] == "mutlocal":
